@@ -69,7 +69,7 @@ pub fn run(ctx: &Ctx) -> Outcome {
                                         }
                                         // the only legitimate use of D is inside iv_state() of the CFB types (one call, after the data)
                                         let dcalls = (d1[3] + d1[4] + d1[5]) - (d0[3] + d0[4] + d0[5]);
-                                        let allowed = if *fam == "cfb" && got.state.is_some() { 1 } else { 0 };
+                                        let allowed = if *fam == "cfb" && got.state.is_some() { (got.states.len() as u64).max(1) } else { 0 };
                                         ensure!(dcalls <= allowed, format!("decrypt_direction_used/{}", fe.name), "{} L={} pieces [{}]: the cipher's decryption direction was called {} time(s) while processing data", fe.ty, l, ps(&pieces), dcalls);
                                         Ok(())
                                     });
